@@ -181,6 +181,21 @@ def search(ctx):
                               dict(kind="xsec", x=xl, pol=list(pol)))
         except Exception as ex:
             ctx.violation("C03:raises:%s" % type(ex).__name__, "one-sphere cluster check raised %r" % (ex,), dict(kind="raises"))
+    # deterministic probe (known finding): beyond the 32 expansion orders the multi-sphere solver is dimensioned for, a one-sphere
+    # cluster silently reports other cross sections than the single sphere
+    try:
+        nm, wl = 1.33, 0.66
+        kw = 2 * math.pi / (wl / nm)
+        s1 = Sphere(n=1.59, r=38.0 / kw, center=(0, 0, 0))
+        ctx.tried("one-sphere-cluster-beyond-nod", (38.0,))
+        cs = calc_cross_sections(s1, medium_index=nm, illum_wavelen=wl, illum_polarization=(1, 0), theory=Mie()).values
+        cm = calc_cross_sections(Spheres([s1]), medium_index=nm, illum_wavelen=wl, illum_polarization=(1, 0),
+                                 theory=Multisphere(eps=1e-10, qeps1=1e-9, qeps2=1e-12)).values
+        if not (abs(cm[2] - cs[2]) <= 1e-4 * cs[2]):
+            ctx.violation("C03:multisphere-one-sphere:beyond-32-orders", "one-sphere cluster at x = 38 reports C_ext = %.4g, the single sphere %.4g" % (cm[2], cs[2]),
+                          dict(kind="xsec", x=38.0, cluster=cm.tolist(), single=cs.tolist()))
+    except Exception as ex:
+        ctx.notes.append("probe of a one-sphere cluster at x = 38 raised %r (a Python exception is not a wrong value)" % (ex,))
     ctx.sample(dict(kind="search", oracles=["Cext = Csca + Cabs", "Cabs >= 0, = 0 for real n", "Csca > 0, |g| <= 1", "optical theorem via calc_scat_matrix(theta=0)",
                                             "Csca and g vs Gauss-Legendre integral of |S|^2", "Rayleigh x^4", "Multisphere(1 sphere) = Mie"]))
 
